@@ -5,7 +5,9 @@ import Pyunicorn.Lemmas.CircuitConn
 import Pyunicorn.Lemmas.CircuitConnC
 import Pyunicorn.Lemmas.CircuitK
 import Pyunicorn.Lemmas.CircuitGRat
+import Pyunicorn.Lemmas.CircuitFlow
 import Pyunicorn.Generated.ArithC18
+import Pyunicorn.Generated.StructC18
 /-! # C18 — Resistive-network quantities obey circuit laws
 
 Model: `Pyunicorn/Model/Circuit.lean` (`ResNetwork` in exact rational arithmetic).
@@ -1299,3 +1301,525 @@ example : IsNetworkK 3 chainAdj (fun _ _ => (2 : ℚ)) :=
   ⟨fun i j _ _ => by simp [chainAdj, Bool.or_comm], fun _ _ _ _ => rfl, fun _ _ _ _ _ => by norm_num⟩
 
 end Pyunicorn.CircuitK
+
+/-! # Round 4
+
+* the resistance matrix is read on the links only: `admittance_offlink`, `admittance_mask`,
+  `history_offlink_irrelevant` (a network built with `adjacency=` from a dense, distance-like
+  resistance matrix — and every history of updates with such matrices — behaves as the network
+  whose matrix is zero off the links, so all circuit laws hold on the *linked* graph);
+  `admittance_eq_nonzeroPattern_iff` characterises when the non-zero pattern of the resistances
+  may stand in for the links (seeded change C18-6), `admittance_default` /
+  `resistancesOk_default` / `defaultAdj_matches_source` cover the constructor without `adjacency=`
+* current-flow betweenness does not depend on the generalised inverse stored by `update_R`
+  (`cfb_summand_eq_potential_drop`, `vcfb_ginv_unique`, `ecfb_ginv_unique`) and therefore
+  follows a rescaling of the resistances whatever `pinv` returns (`vcfb_scaling_connected`,
+  `ecfb_scaling_connected`)
+* scaling of the remaining observables: `localClustering_scaling`, `globalClustering_scaling`,
+  `ercc_scaling_connected`, `average_scaling_connected`, `diameter_scaling_connected`
+-/
+namespace Pyunicorn.Circuit
+open Finset
+
+/-! ## the resistance matrix matters on the links only -/
+
+/-- `update_admittance` reads `resistances[i, j]` for linked pairs only: two matrices that agree on
+the links give the same admittance matrix (whatever they hold elsewhere, diagonal included) -/
+theorem admittance_offlink (adj : Adj) (res res' : Mat)
+    (h : ∀ i j, adj i j = true → res i j = res' i j) :
+    admittance adj res = admittance adj res' := by
+  funext i j
+  unfold admittance
+  split
+  · next ha => rw [h i j ha]
+  · rfl
+
+theorem admittance_mask (adj : Adj) (res : Mat) :
+    admittance adj (maskRes adj res) = admittance adj res :=
+  admittance_offlink adj _ _ fun i j ha => by simp [maskRes, ha]
+
+theorem resistancesOk_iff (n : Nat) (adj : Adj) (res : Mat) :
+    resistancesOk n adj res = true ↔ ∀ i j, i < n → j < n → adj i j = true → res i j ≠ 0 := by
+  unfold resistancesOk
+  simp only [List.all_eq_true, List.mem_range, Bool.or_eq_true, Bool.not_eq_true', bne_iff_ne]
+  constructor
+  · intro h i j hi hj ha
+    rcases h i hi j hj with h | h
+    · rw [ha] at h; exact absurd h (by decide)
+    · exact h
+  · intro h i hi j hj
+    by_cases ha : adj i j = true
+    · exact Or.inr (h i j hi hj ha)
+    · exact Or.inl (by simpa using ha)
+
+/-- **When may the non-zero pattern of the resistance matrix stand in for the links?**  Filling
+the admittance from `np.nonzero(resistances)` instead of `edge_list()` gives the same matrix
+*exactly* when no unlinked pair (and no diagonal entry) carries a non-zero resistance — which is
+false for a dense resistance matrix with an explicit `adjacency=`. -/
+theorem admittance_eq_nonzeroPattern_iff (n : Nat) (adj : Adj) (res : Mat)
+    (hok : resistancesOk n adj res = true) :
+    (∀ i j, i < n → j < n →
+        admittance adj res i j = (if res i j ≠ 0 then 1 / res i j else 0))
+      ↔ (∀ i j, i < n → j < n → res i j ≠ 0 → adj i j = true) := by
+  rw [resistancesOk_iff] at hok
+  constructor
+  · intro h i j hi hj hr
+    by_contra ha
+    have ha' : adj i j = false := by simpa using ha
+    have h0 : admittance adj res i j = 0 := by simp [admittance, ha']
+    have h1 := h i j hi hj
+    rw [h0, if_pos hr] at h1
+    exact one_div_ne_zero hr h1.symm
+  · intro h i j hi hj
+    unfold admittance
+    by_cases ha : adj i j = true
+    · simp [ha, hok i j hi hj ha]
+    · have : res i j = 0 := by
+        by_contra hr; exact ha (h i j hi hj hr)
+      simp [ha, this]
+
+/-- the constructor without `adjacency=`: the links are the non-zero pattern, so the admittance is
+`1/r` on the non-zero pattern … -/
+theorem admittance_default (res : Mat) (i j : Nat) :
+    admittance (defaultAdj res) res i j = if res i j ≠ 0 then 1 / res i j else 0 := by
+  unfold admittance defaultAdj
+  by_cases h : res i j = 0 <;> simp [h]
+
+/-- … and no link has resistance zero (no `inf` admittance can arise on this path) -/
+theorem resistancesOk_default (n : Nat) (res : Mat) :
+    resistancesOk n (defaultAdj res) res = true := by
+  rw [resistancesOk_iff]
+  intro i j _ _ h
+  simpa [defaultAdj] using h
+
+section source_tie4
+open Pyunicorn.Generated.ArithC18
+set_option linter.unusedSimpArgs false in
+/-- `adjacency[resistances != 0] = 1` — regenerated from `__init__` on every run; stated on the
+non-negative entries a resistance matrix has (so that an equivalent test such as `> 0` keeps the
+proof) -/
+theorem defaultAdj_matches_source (res : Mat) (i j : Nat) (h : 0 ≤ res i j) :
+    defaultAdj res i j = defaultAdjExpr (res i j) := by
+  unfold defaultAdj defaultAdjExpr
+  rcases eq_or_lt_of_le h with h0 | hpos
+  · simp [← h0]
+  · simp [hpos, hpos.ne']
+
+/-- `np.dot(adj, ad) / ad` — regenerated from `average_neighbors_admittive_degree` -/
+theorem anad_matches_source (n : Nat) (adj : Adj) (adm : Mat) (i : Nat) :
+    anad n adj adm i
+      = anadExpr (sumTo n fun j => b2r (adj i j) * admDegree n adm j) (admDegree n adm i) := rfl
+end source_tie4
+
+/-- two objects that differ at most in entries of the resistance matrix on unlinked pairs -/
+structure SameOnLinks (s s' : State) : Prop where
+  n : s.n = s'.n
+  adj : s.adj = s'.adj
+  adm : s.adm = s'.adm
+  R : s.R = s'.R
+  store : s.store = s'.store
+  res : ∀ i j, s.adj i j = true → s.res i j = s'.res i j
+
+/-- the same call with the argument of `update_resistances` set to zero off the links -/
+def maskOp (adj : Adj) : Op → Op
+  | .update r => .update (maskRes adj r)
+  | op => op
+
+theorem step_adj (pinv : Nat → Mat → LMat) (s : State) (op : Op) :
+    (step pinv s op).1.adj = s.adj := by
+  cases op <;> simp only [step, State.update]
+  · cases s.store <;> rfl
+
+theorem step_sameOnLinks (pinv : Nat → Mat → LMat) (s s' : State) (h : SameOnLinks s s') (op : Op)
+    (hop : op ≠ .meanRes) :
+    SameOnLinks (step pinv s op).1 (step pinv s' (maskOp s.adj op)).1
+      ∧ (step pinv s op).2 = (step pinv s' (maskOp s.adj op)).2 := by
+  obtain ⟨n, adj, res, adm, R, store⟩ := s
+  obtain ⟨n', adj', res', adm', R', store'⟩ := s'
+  obtain ⟨h1, h2, h3, h4, h5, h6⟩ := h
+  simp only at h1 h2 h3 h4 h5 h6
+  subst h1 h2 h3 h4 h5
+  cases op with
+  | meanRes => exact absurd rfl hop
+  | update r =>
+    refine ⟨⟨rfl, rfl, ?_, ?_, rfl, ?_⟩, rfl⟩
+    · exact (admittance_mask adj r).symm
+    · show toFun (pinv n (laplacian n (admittance adj r)))
+        = toFun (pinv n (laplacian n (admittance adj (maskRes adj r))))
+      rw [admittance_mask]
+    · intro i j ha
+      have ha' : adj i j = true := ha
+      show r i j = maskRes adj r i j
+      simp [maskRes, ha']
+  | updAdm =>
+    exact ⟨⟨rfl, rfl, admittance_offlink _ _ _ h6, rfl, rfl, h6⟩, rfl⟩
+  | diameter =>
+    cases store with
+    | none => exact ⟨⟨rfl, rfl, rfl, rfl, rfl, h6⟩, rfl⟩
+    | some st => exact ⟨⟨rfl, rfl, rfl, rfl, rfl, h6⟩, rfl⟩
+  | average | effRes a b | ercc a | vcfb i | ecfb i j | admDeg i | anad i | lclust i | gclust
+  | getR i j | getAdm i j | lap i j | updR =>
+    exact ⟨⟨rfl, rfl, rfl, rfl, rfl, h6⟩, rfl⟩
+
+theorem run_sameOnLinks (pinv : Nat → Mat → LMat) (ops : List Op) (s s' : State)
+    (h : SameOnLinks s s') (hops : ∀ op ∈ ops, op ≠ .meanRes) :
+    (run pinv s ops).2 = (run pinv s' (ops.map (maskOp s.adj))).2 := by
+  induction ops generalizing s s' with
+  | nil => rfl
+  | cons op ops ih =>
+    obtain ⟨hs, hv⟩ := step_sameOnLinks pinv s s' h op (hops op (List.mem_cons_self ..))
+    have := ih _ _ hs fun o ho => hops o (List.mem_cons_of_mem _ ho)
+    rw [step_adj] at this
+    simp only [run, List.map_cons]
+    rw [this, hv]
+
+/-- **Only the resistances of the links matter — over whole histories.**  A `ResNetwork` built
+with an explicit `adjacency=` from *any* resistance matrix (dense, distance-like, non-zero on the
+diagonal), driven through any history of `update_resistances` calls with such matrices and of
+queries, returns call by call what the network returns whose matrices are zero off the links
+(`maskRes`).  The latter satisfies `IsNetwork` as soon as the links carry symmetric positive
+resistances, so every circuit law above holds on the *linked* graph.  (`__str__`, which prints the
+mean of the whole matrix, is the one query that sees the other entries.) -/
+theorem history_offlink_irrelevant (pinv : Nat → Mat → LMat) (n : Nat) (adj : Adj) (res : Mat)
+    (ops : List Op) (hops : ∀ op ∈ ops, op ≠ .meanRes) :
+    (run pinv (State.init pinv n adj res) ops).2
+      = (run pinv (State.init pinv n adj (maskRes adj res)) (ops.map (maskOp adj))).2 := by
+  have h : SameOnLinks (State.init pinv n adj res) (State.init pinv n adj (maskRes adj res)) := by
+    refine ⟨rfl, rfl, ?_, ?_, rfl, fun i j ha => ?_⟩
+    · simp [State.init, State.update, admittance_mask]
+    · simp [State.init, State.update, admittance_mask]
+    · simp only [State.init, State.update] at ha ⊢
+      simp [maskRes, ha]
+  exact run_sameOnLinks pinv ops _ _ h hops
+
+/-- the masked matrix of a dense symmetric matrix with positive entries on the (symmetric) links
+is a resistor network in the sense of the circuit theorems -/
+theorem isNetwork_mask (n : Nat) (adj : Adj) (res : Mat)
+    (hadj : ∀ i j, i < n → j < n → adj i j = adj j i)
+    (hsym : ∀ i j, i < n → j < n → adj i j = true → res i j = res j i)
+    (hpos : ∀ i j, i < n → j < n → adj i j = true → 0 < res i j) :
+    IsNetwork n adj (maskRes adj res) := by
+  refine ⟨hadj, fun i j hi hj => ?_, fun i j hi hj ha => by simpa [maskRes, ha] using hpos i j hi hj ha⟩
+  unfold maskRes
+  rw [← hadj i j hi hj]
+  by_cases ha : adj i j = true
+  · simp [ha, hsym i j hi hj ha]
+  · simp [ha]
+
+/-- non-vacuity: the chain `0 — 1 — 2` with a dense "distance" matrix (`res i j = 7` also on the
+unlinked pair `{0,2}` and on the diagonal): update with another dense matrix, then query -/
+example (pinv : Nat → Mat → LMat) :
+    (run pinv (State.init pinv 3 chainAdj fun _ _ => 7) [.update fun _ _ => 5, .getAdm 0 2, .getAdm 0 1]).2
+      = [none, some 0, some (1 / 5)] := by
+  rw [history_offlink_irrelevant _ _ _ _ _ (by simp)]
+  simp [run, step, State.init, State.update, maskOp, maskRes, admittance, chainAdj]
+
+example : IsNetwork 3 chainAdj (maskRes chainAdj fun _ _ => 7) :=
+  isNetwork_mask 3 chainAdj _ (fun i j _ _ => by simp [chainAdj, Bool.or_comm])
+    (fun _ _ _ _ _ => rfl) (fun _ _ _ _ _ => by norm_num)
+
+/-- the dense matrix of the example violates the right-hand side of
+`admittance_eq_nonzeroPattern_iff`: the non-zero pattern is not the set of links -/
+example : ¬ (∀ i j, i < 3 → j < 3 → (fun _ _ => (7 : Rat)) i j ≠ 0 → chainAdj i j = true) := by
+  intro h
+  have := h 0 2 (by omega) (by omega) (by norm_num)
+  revert this; decide
+
+/-! ## current-flow betweenness for every generalised inverse -/
+
+/-- **The summand of both C kernels is the potential difference across the pair `(i, j)`, whatever
+generalised inverse `update_R` stored**: on a connected resistor network, for every `R` with
+`L R L = L` and *any* potentials `V` of the unit current `s → t` (`L V = e_s − e_t`),
+`R[i,s] − R[j,s] + R[j,t] − R[i,t] = V_i − V_j`.  (Round 1's `nodeCurrent_eq_potential` is the
+algebraic rearrangement only and needs `L R = I − J/N` to read `R e_s − R e_t` as potentials.) -/
+theorem cfb_summand_eq_potential_drop (n : Nat) (adj : Adj) (res R : Mat) (V : Vec)
+    (i j s t : Nat) (hi : i < n) (hj : j < n) (hs : s < n) (ht : t < n)
+    (hN : IsNetwork n adj res) (hconn : CutConnected n (admittance adj res))
+    (hg : IsGinv n (laplacian n (admittance adj res)) R)
+    (hV : IsPot n (laplacian n (admittance adj res)) V s t) :
+    R i s - R j s + R j t - R i t = V i - V j := by
+  obtain ⟨R₀, _, _, hpot⟩ := exists_inverse_and_potentials n adj res hN hconn
+  exact flow_eq_drop n _ R _ V i j s t hi hj hs ht (lap_symm (adm_symm hN)) hg (hpot i j hi hj) hV
+
+/-- the kernels' summand does not depend on the generalised inverse -/
+theorem cfb_summand_ginv_unique (n : Nat) (adj : Adj) (res R R' : Mat)
+    (i j s t : Nat) (hi : i < n) (hj : j < n) (hs : s < n) (ht : t < n)
+    (hN : IsNetwork n adj res) (hconn : CutConnected n (admittance adj res))
+    (hg : IsGinv n (laplacian n (admittance adj res)) R)
+    (hg' : IsGinv n (laplacian n (admittance adj res)) R') :
+    R i s - R j s + R j t - R i t = R' i s - R' j s + R' j t - R' i t := by
+  obtain ⟨R₀, _, _, hpot⟩ := exists_inverse_and_potentials n adj res hN hconn
+  rw [cfb_summand_eq_potential_drop n adj res R _ i j s t hi hj hs ht hN hconn hg (hpot s t hs ht),
+    cfb_summand_eq_potential_drop n adj res R' _ i j s t hi hj hs ht hN hconn hg' (hpot s t hs ht)]
+
+/-- **Vertex current-flow betweenness is a function of the network alone**: with equal source
+and sink currents (the method passes `Is = It = 1`) the C sum returns the same value for any two
+generalised inverses of the admittance Laplacian.  All that is used of `np.linalg.pinv` is
+`L R L = L`. -/
+theorem vcfb_ginv_unique (n : Nat) (adj : Adj) (res R R' : Mat) (I : Rat) (i : Nat) (hi : i < n)
+    (hN : IsNetwork n adj res) (hconn : CutConnected n (admittance adj res))
+    (hg : IsGinv n (laplacian n (admittance adj res)) R)
+    (hg' : IsGinv n (laplacian n (admittance adj res)) R') :
+    vcfbKernel n I I (admittance adj res) R i = vcfbKernel n I I (admittance adj res) R' i := by
+  rw [vcfbKernel_eq_sum, vcfbKernel_eq_sum]
+  congr 1
+  refine Finset.sum_congr rfl fun t ht => Finset.sum_congr rfl fun s hs => ?_
+  have ht' := Finset.mem_range.mp ht
+  have hs' : s < n := lt_trans (Finset.mem_range.mp hs) ht'
+  split
+  · rfl
+  · unfold nodeCurrent
+    congr 1
+    refine Finset.sum_congr rfl fun j hj => ?_
+    have e : ∀ Q : Mat, I * (Q i s - Q j s) + I * (Q j t - Q i t)
+        = I * (Q i s - Q j s + Q j t - Q i t) := fun Q => by ring
+    rw [e R, e R', cfb_summand_ginv_unique n adj res R R' i j s t hi (Finset.mem_range.mp hj) hs' ht'
+      hN hconn hg hg']
+
+/-- … and so is every entry of the edge current-flow betweenness -/
+theorem ecfb_ginv_unique (n : Nat) (adj : Adj) (res R R' : Mat) (I : Rat) (i j : Nat) (hi : i < n)
+    (hj : j < n) (hN : IsNetwork n adj res) (hconn : CutConnected n (admittance adj res))
+    (hg : IsGinv n (laplacian n (admittance adj res)) R)
+    (hg' : IsGinv n (laplacian n (admittance adj res)) R') :
+    ecfbKernel n I I (admittance adj res) R i j = ecfbKernel n I I (admittance adj res) R' i j := by
+  rw [ecfbKernel_eq_sum, ecfbKernel_eq_sum]
+  congr 1
+  refine Finset.sum_congr rfl fun t ht => Finset.sum_congr rfl fun s hs => ?_
+  have ht' := Finset.mem_range.mp ht
+  have hs' : s < n := lt_trans (Finset.mem_range.mp hs) ht'
+  have e : ∀ Q : Mat, I * (Q i s - Q j s) + I * (Q j t - Q i t)
+      = I * (Q i s - Q j s + Q j t - Q i t) := fun Q => by ring
+  rw [e R, e R', cfb_summand_ginv_unique n adj res R R' i j s t hi hj hs' ht' hN hconn hg hg']
+
+/-- the scaled network: same links, resistances `× k`; `k R` is a generalised inverse of its
+Laplacian -/
+theorem ginv_of_scaled (n : Nat) (adj : Adj) (res R : Mat) (k : Rat) (hk : k ≠ 0)
+    (hg : IsGinv n (laplacian n (admittance adj res)) R) :
+    IsGinv n (laplacian n (admittance adj fun i j => k * res i j)) (fun a b => k * R a b) := by
+  rw [admittance_scale_fun, laplacian_scale_fun]
+  have := ginv_scale n _ R (1 / k) (one_div_ne_zero hk) hg
+  simpa using this
+
+/-- **Betweenness follows a rescaling of the resistances** (full strength): connected network,
+all resistances `× k` (`k > 0`) through `update_resistances`, `R` / `R'` whatever generalised
+inverses are stored before / after — the vertex current-flow betweenness does not change.
+(`vcfb_scaling_invariant` assumed `R' = k R`.) -/
+theorem vcfb_scaling_connected (n : Nat) (adj : Adj) (res R R' : Mat) (k : Rat) (hk : 0 < k)
+    (I : Rat) (i : Nat) (hi : i < n) (hN : IsNetwork n adj res)
+    (hconn : CutConnected n (admittance adj res))
+    (hg : IsGinv n (laplacian n (admittance adj res)) R)
+    (hg' : IsGinv n (laplacian n (admittance adj fun i j => k * res i j)) R') :
+    vcfbKernel n I I (admittance adj fun i j => k * res i j) R' i
+      = vcfbKernel n I I (admittance adj res) R i := by
+  have hN' := isNetwork_scale k hk hN
+  have hconn' : CutConnected n (admittance adj fun i j => k * res i j) := by
+    rw [admittance_scale_fun]
+    exact cutConnected_scale (1 / k) (one_div_ne_zero (ne_of_gt hk)) hconn
+  rw [vcfb_ginv_unique n adj _ R' (fun a b => k * R a b) I i hi hN' hconn' hg'
+    (ginv_of_scaled n adj res R k (ne_of_gt hk) hg), admittance_scale_fun]
+  exact vcfb_scaling_invariant n I I _ R k hk i
+
+theorem ecfb_scaling_connected (n : Nat) (adj : Adj) (res R R' : Mat) (k : Rat) (hk : 0 < k)
+    (I : Rat) (i j : Nat) (hi : i < n) (hj : j < n) (hN : IsNetwork n adj res)
+    (hconn : CutConnected n (admittance adj res))
+    (hg : IsGinv n (laplacian n (admittance adj res)) R)
+    (hg' : IsGinv n (laplacian n (admittance adj fun i j => k * res i j)) R') :
+    ecfbKernel n I I (admittance adj fun i j => k * res i j) R' i j
+      = ecfbKernel n I I (admittance adj res) R i j := by
+  have hN' := isNetwork_scale k hk hN
+  have hconn' : CutConnected n (admittance adj fun i j => k * res i j) := by
+    rw [admittance_scale_fun]
+    exact cutConnected_scale (1 / k) (one_div_ne_zero (ne_of_gt hk)) hconn
+  rw [ecfb_ginv_unique n adj _ R' (fun a b => k * R a b) I i j hi hj hN' hconn' hg'
+    (ginv_of_scaled n adj res R k (ne_of_gt hk) hg), admittance_scale_fun]
+  exact ecfb_scaling_invariant n I I _ R k hk i j
+
+/-- non-vacuity: the unit chain, its pseudo-inverse and the (different) generalised inverse
+`chainPinv + J` — same betweenness -/
+example : vcfbKernel 3 1 1 (admittance chainAdj unitRes) (fun a b => chainPinv a b + 1) 1
+    = vcfbKernel 3 1 1 (admittance chainAdj unitRes) chainPinv 1 := by
+  refine vcfb_ginv_unique 3 chainAdj unitRes _ _ 1 1 (by omega) chain_network chain_conn ?_ chain_ginv
+  intro i j hi hj
+  have hi' : i = 0 ∨ i = 1 ∨ i = 2 := by omega
+  have hj' : j = 0 ∨ j = 1 ∨ j = 2 := by omega
+  rcases hi' with rfl | rfl | rfl <;> rcases hj' with rfl | rfl | rfl <;>
+    simp [sumTo, laplacian, colSum, admittance, chainAdj, unitRes, chainPinv, toFun, LMat.at,
+      List.range_succ] <;> norm_num
+
+/-! ## scaling of the remaining observables -/
+
+/-- admittive clustering scales with the inverse square of a common factor of the resistances -/
+theorem localClustering_scaling (n : Nat) (adj : Adj) (res : Mat) (k : Rat) (hk : k ≠ 0) (i : Nat) :
+    localClustering n adj (admittance adj fun i j => k * res i j) i
+      = (1 / k) ^ 2 * localClustering n adj (admittance adj res) i := by
+  rw [localClustering_eq_sum, localClustering_eq_sum, admDegree_scaling]
+  split
+  · simp
+  · rw [admittance_scale_fun]
+    have hs : (∑ j ∈ range n, ∑ l ∈ range n,
+          1 / k * admittance adj res i j * (1 / k * admittance adj res i l)
+            * (1 / k * admittance adj res j l))
+        = (1 / k) * ((1 / k) ^ 2 * ∑ j ∈ range n, ∑ l ∈ range n,
+            admittance adj res i j * admittance adj res i l * admittance adj res j l) := by
+      rw [Finset.mul_sum, Finset.mul_sum]
+      refine Finset.sum_congr rfl fun j _ => ?_
+      rw [Finset.mul_sum, Finset.mul_sum]
+      refine Finset.sum_congr rfl fun l _ => ?_
+      ring
+    rw [hs, mul_assoc (1 / k), mul_div_mul_left _ _ (one_div_ne_zero hk), mul_div_assoc]
+
+theorem globalClustering_scaling (n : Nat) (adj : Adj) (res : Mat) (k : Rat) (hk : k ≠ 0) :
+    globalClustering n adj (admittance adj fun i j => k * res i j)
+      = (1 / k) ^ 2 * globalClustering n adj (admittance adj res) := by
+  rw [globalClustering_eq_mean, globalClustering_eq_mean,
+    Finset.sum_congr rfl fun i _ => localClustering_scaling n adj res k hk i, ← Finset.mul_sum,
+    mul_div_assoc]
+
+/-- closeness scales inversely (connected network, `k > 0`, any generalised inverses) -/
+theorem ercc_scaling_connected (n : Nat) (adj : Adj) (res R R' : Mat) (k : Rat) (hk : 0 < k)
+    (a : Nat) (ha : a < n) (hN : IsNetwork n adj res) (hconn : CutConnected n (admittance adj res))
+    (hg : IsGinv n (laplacian n (admittance adj res)) R)
+    (hg' : IsGinv n (laplacian n (admittance adj fun i j => k * res i j)) R') :
+    ercc n R' a = (1 / k) * ercc n R a := by
+  unfold ercc
+  rw [sumTo_eq, sumTo_eq, Finset.sum_congr rfl fun i hi =>
+    effRes_scaling_connected n adj res R R' k (ne_of_gt hk) a i ha (Finset.mem_range.mp hi) hN hconn
+      hg hg', ← Finset.mul_sum, div_eq_mul_inv, mul_inv]
+  ring
+
+private theorem list_sum_map_mul (k : Rat) (xs : List Rat) : (xs.map (k * ·)).sum = k * xs.sum := by
+  induction xs with
+  | nil => simp
+  | cons x xs ih => simp [ih, mul_add]
+
+/-- the store filled by `average_effective_resistance` after the rescaling is `k ×` the old one -/
+theorem allPairs_scaling_connected (n : Nat) (adj : Adj) (res R R' : Mat) (k : Rat) (hk : 0 < k)
+    (hN : IsNetwork n adj res) (hconn : CutConnected n (admittance adj res))
+    (hg : IsGinv n (laplacian n (admittance adj res)) R)
+    (hg' : IsGinv n (laplacian n (admittance adj fun i j => k * res i j)) R') :
+    allPairs n R' = (allPairs n R).map (k * ·) :=
+  allPairs_congr n R R' (k * ·) fun i j hi hj =>
+    effRes_scaling_connected n adj res R R' k (ne_of_gt hk) i j hi (lt_trans hj hi) hN hconn hg hg'
+
+/-- average and diameter scale linearly -/
+theorem average_scaling_connected (n : Nat) (adj : Adj) (res R R' : Mat) (k : Rat) (hk : 0 < k)
+    (hN : IsNetwork n adj res) (hconn : CutConnected n (admittance adj res))
+    (hg : IsGinv n (laplacian n (admittance adj res)) R)
+    (hg' : IsGinv n (laplacian n (admittance adj fun i j => k * res i j)) R') :
+    averageOf n (allPairs n R') = k * averageOf n (allPairs n R) := by
+  rw [allPairs_scaling_connected n adj res R R' k hk hN hconn hg hg']
+  unfold averageOf
+  rw [list_sum_map_mul]
+  ring
+
+theorem diameter_scaling_connected (n : Nat) (adj : Adj) (res R R' : Mat) (k : Rat) (hk : 0 < k)
+    (hN : IsNetwork n adj res) (hconn : CutConnected n (admittance adj res))
+    (hg : IsGinv n (laplacian n (admittance adj res)) R)
+    (hg' : IsGinv n (laplacian n (admittance adj fun i j => k * res i j)) R') :
+    maxOf (allPairs n R') = (maxOf (allPairs n R)).map (k * ·) := by
+  rw [allPairs_scaling_connected n adj res R R' k hk hN hconn hg hg']
+  exact maxOf_scale k hk _
+
+example : localClustering 3 triAdj (admittance triAdj fun _ _ => 2 * 1) 0
+    = (1 / 2) ^ 2 * localClustering 3 triAdj (admittance triAdj fun _ _ => 1) 0 :=
+  localClustering_scaling 3 triAdj (fun _ _ => 1) 2 (by norm_num) 0
+
+/-! ## the C kernels and the update methods, regenerated from the source text
+
+`Pyunicorn.Generated.StructC18` is written on every run by `translate/gen_C18.py` from
+`src_numerics.c` (a small C parser: loop nest, `continue` condition, the two accumulation
+statements of each kernel with every subscript checked to be row-major `row*N+col`) and from the
+`ast` of `update_resistances`, `update_admittance`, `update_R`, `__init__`.  The model's kernels are
+proved equal to the loops assembled from the generated pieces, so an edit of a summand, a
+normalisation, the skip condition or a subscript (e.g. a transposed `R[s*N+j]`) breaks this file;
+a changed loop bound or call order changes `vcfbLoops` / `updResCalls` and breaks the `rfl`s. -/
+section source_tie5
+open Pyunicorn.Generated.StructC18
+
+/-- the loop nests as written: `for(t=0;t<N;t++) for(s=0;s<t;s++) … for(j=0;j<N;j++)` and
+`for i<N, for j<N, for t<N, for s<t` -/
+theorem cfb_loops_match_source :
+    vcfbLoops = [("t", "0", "N"), ("s", "0", "t"), ("j", "0", "N")]
+      ∧ ecfbLoops = [("i", "0", "N"), ("j", "0", "N"), ("t", "0", "N"), ("s", "0", "t")] :=
+  ⟨rfl, rfl⟩
+
+/-- the model of the vertex kernel is the loop nest of `vcfbLoops` around the generated skip
+condition, summand and normalisation -/
+theorem vcfbKernel_matches_source (n : Nat) (Is It : Rat) (adm R : Mat) (i : Nat) :
+    vcfbKernel n Is It adm R i
+      = (List.range n).foldl (fun vcfb t =>
+          (List.range t).foldl (fun vcfb s =>
+            if vcfbSkip i t s = true then vcfb
+            else vcfb + vcfbNorm ((List.range n).foldl (fun J j =>
+              J + vcfbTerm Is It (adm i j) (R i s) (R j s) (R j t) (R i t)) 0) (n : Int)) vcfb) 0 := by
+  unfold vcfbKernel vcfbSkip vcfbNorm vcfbTerm
+  simp only [decide_eq_true_eq, natpair_cast]
+  rfl
+
+theorem ecfbKernel_matches_source (n : Nat) (Is It : Rat) (adm R : Mat) (i j : Nat) :
+    ecfbKernel n Is It adm R i j
+      = ecfbNorm ((List.range n).foldl (fun J t =>
+          (List.range t).foldl (fun J s =>
+            J + ecfbTerm Is It (adm i j) (R i s) (R j s) (R j t) (R i t)) J) 0) (n : Int) := by
+  unfold ecfbKernel ecfbNorm ecfbTerm
+  simp only [natpair_cast]
+  rfl
+
+/-- one `self.<method>()` call of `update_resistances` on the model state -/
+def execCall (pinv : Nat → Mat → LMat) (s : State) : Call → Option State
+  | .update_admittance => some (step pinv s .updAdm).1
+  | .update_R => some (step pinv s .updR).1
+  | .other _ => none
+
+def execCalls (pinv : Nat → Mat → LMat) : State → List Call → Option State
+  | s, [] => some s
+  | s, c :: cs => (execCall pinv s c).bind fun s' => execCalls pinv s' cs
+
+/-- **`update_resistances` as written**: setting the property and then running the calls listed
+in the regenerated `updResCalls` (today `update_admittance()`, `update_R()`) gives the model's
+`State.update`.  A reordered, dropped or conditional call falsifies this. -/
+theorem update_body_matches_source (pinv : Nat → Mat → LMat) (s : State) (r : Mat) :
+    updResSetsProperty = true
+      ∧ execCalls pinv { s with res := r } updResCalls = some (s.update pinv r) := by
+  exact ⟨rfl, rfl⟩
+
+/-- the filling loop of `update_admittance` runs over `edge_list()` — the *links* — and reads
+`resistances` at the subscripts it writes (or the transposed ones: the same value on the symmetric
+matrices of the property); `admittance_offlink` is the consequence -/
+theorem admittance_loop_matches_source :
+    admLoopOver = "self.edge_list()" ∧ admTargetIndex = ["edge[0]", "edge[1]"]
+      ∧ (admValueIndex = admTargetIndex ∨ admValueIndex = admTargetIndex.reverse) :=
+  ⟨rfl, rfl, Or.inl rfl⟩
+
+/-- `update_R`: pseudo-inverse of `admittance_lapacian()`, then the store is dropped; `__init__`
+ends with `update_resistances(resistances)` and an empty store — the shape of `State.update`,
+`step … .updR` and `State.init` -/
+theorem updR_init_match_source (pinv : Nat → Mat → LMat) (n : Nat) (adj : Adj) (res : Mat) :
+    updRInput = "self.admittance_lapacian()" ∧ updRResetsStore = true
+      ∧ initCallsUpdate = true ∧ initStoreNone = true
+      ∧ (State.init pinv n adj res).store = none
+      ∧ ∀ s : State, (step pinv s .updR).1.store = none :=
+  ⟨rfl, rfl, rfl, rfl, rfl, fun _ => rfl⟩
+
+/-- the singular-value cut-off handed to `np.linalg.pinv` is `N · eps` of *double* precision; for
+every size below `2^29` it stays below the float32 unit round-off `2^-23` (the seeded changes
+C18-1 / C18-5 put a float32 `eps` here, which discards genuine small Laplacian eigenvalues) -/
+theorem rcond_matches_source :
+    rcondEpsType = "float" ∧ (∀ (N : Nat) (eps : Rat), rcondExpr N eps = N * eps)
+      ∧ ∀ N : Nat, N < 2 ^ 29 → rcondExpr N (1 / 2 ^ 52) < 1 / 2 ^ 23 := by
+  refine ⟨rfl, fun _ _ => rfl, fun N hN => ?_⟩
+  unfold rcondExpr
+  have h : (N : Rat) < 2 ^ 29 := by exact_mod_cast hN
+  rw [mul_one_div, div_lt_div_iff₀ (by positivity) (by positivity)]
+  calc (N : Rat) * 2 ^ 23 < 2 ^ 29 * 2 ^ 23 := by
+        exact mul_lt_mul_of_pos_right h (by positivity)
+    _ = 1 * 2 ^ 52 := by norm_num
+
+example (pinv : Nat → Mat → LMat) (r : Mat) :
+    execCalls pinv { (State.init pinv 3 chainAdj unitRes) with res := r } [.update_admittance, .update_R]
+      = some ((State.init pinv 3 chainAdj unitRes).update pinv r) :=
+  (update_body_matches_source pinv _ r).2
+
+end source_tie5
+
+end Pyunicorn.Circuit
